@@ -37,11 +37,14 @@
 #include "llvm/Support/JSON.h"
 #include "llvm/Support/SourceMgr.h"
 #include "llvm/Support/raw_ostream.h"
+#include "llvm/Transforms/IPO/AlwaysInliner.h"
 #include "llvm/Transforms/Utils/LCSSA.h"
 #include "llvm/Transforms/Utils/Local.h"
 #include "llvm/Transforms/Utils/LoopSimplify.h"
 #include "llvm/Transforms/Utils/Mem2Reg.h"
+#include <fstream>
 #include <map>
+#include <set>
 #include <string>
 
 using namespace llvm;
@@ -663,6 +666,8 @@ struct Dumper {
     }
   }
 
+  std::set<std::string> Keep;
+
   void run() {
     PassBuilder PB;
     LoopAnalysisManager LAM;
@@ -674,6 +679,23 @@ struct Dumper {
     PB.registerFunctionAnalyses(FAM);
     PB.registerLoopAnalyses(LAM);
     PB.crossRegisterProxies(LAM, FAM, CGAM, MAM);
+    // Functions that are not on the pinned list (helpers introduced by a later refactoring: a phase of a long function
+    // moved into a static function) are expanded into their callers, so that rules anchored in the caller still see the code.
+    if (!Keep.empty()) {
+      bool Any = false;
+      for (auto &F : M)
+        if (!F.isDeclaration() && !Keep.count(F.getName().str())) {
+          F.removeFnAttr(Attribute::NoInline);
+          F.removeFnAttr(Attribute::OptimizeNone);
+          F.addFnAttr(Attribute::AlwaysInline);
+          Any = true;
+        }
+      if (Any) {
+        ModulePassManager MPM;
+        MPM.addPass(AlwaysInlinerPass(false));
+        MPM.run(M, MAM);
+      }
+    }
     FunctionPassManager FPM;
     FPM.addPass(PromotePass());
     FPM.addPass(LoopSimplifyPass());
@@ -785,8 +807,8 @@ struct Dumper {
 };
 
 int main(int argc, char **argv) {
-  if (argc != 3) {
-    errs() << "usage: ofir-dump <in.ll|bc> <out.json>\n";
+  if (argc != 3 && argc != 4) {
+    errs() << "usage: ofir-dump <in.ll|bc> <out.json> [pinned-functions.txt]\n";
     return 2;
   }
   LLVMContext Ctx;
@@ -803,6 +825,13 @@ int main(int argc, char **argv) {
     return 2;
   }
   Dumper D(*M, OS);
+  if (argc == 4) {
+    std::ifstream In(argv[3]);
+    std::string L;
+    while (std::getline(In, L))
+      if (!L.empty() && L[0] != '#')
+        D.Keep.insert(L);
+  }
   D.run();
   OS << "\n";
   return 0;
